@@ -177,7 +177,7 @@ proof fn lemma_neg_inv_unique(k1: int, k2: int, m0: int)
     if k2 != 0 { lemma_mod_add_multiples_vanish(-k2, b); lemma_small_mod((b - k2) as nat, b as nat); } else { lemma_small_mod(0, b as nat); }
 }
 
-proof fn lemma_p2_mono(a: nat, b: nat)
+pub proof fn lemma_p2_mono(a: nat, b: nat)
     requires a <= b
     ensures p2(a) <= p2(b), p2(a) > 0
 {
@@ -218,7 +218,7 @@ proof fn lemma_one_def(m: int, n: nat)
 }
 
 /// the stored `one` is congruent to R in every case (for m == 1 the code yields one == 1)
-proof fn lemma_one_cong(one: int, m: int, n: nat)
+pub proof fn lemma_one_cong(one: int, m: int, n: nat)
     requires m >= 1, m % 2 == 1, one == (bp(n) - 1) % m + 1
     ensures one % m == bp(n) % m, m > 1 ==> one == bp(n) % m, m == 1 ==> one == 1, 1 <= one <= m
 {
@@ -233,7 +233,7 @@ proof fn lemma_one_cong(one: int, m: int, n: nat)
 }
 
 /// r2 == one^2 mod m == R^2 mod m
-proof fn lemma_r2_def(one: int, m: int, r: int)
+pub proof fn lemma_r2_def(one: int, m: int, r: int)
     requires m >= 1, one % m == r % m
     ensures (one * one) % m == (r * r) % m
 {
@@ -242,7 +242,7 @@ proof fn lemma_r2_def(one: int, m: int, r: int)
 }
 
 /// r3 == r2^2 * R^-1 mod m == R^3 mod m
-proof fn lemma_r3_def(r3: int, r2: int, m: int, n: nat)
+pub proof fn lemma_r3_def(r3: int, r2: int, m: int, n: nat)
     requires m >= 1, m % 2 == 1, r2 == (bp(n) * bp(n)) % m, mont_red(r3, r2 * r2, m, bp(n))
     ensures r3 == (bp(n) * bp(n) * bp(n)) % m
 {
@@ -256,7 +256,7 @@ proof fn lemma_r3_def(r3: int, r2: int, m: int, n: nat)
 }
 
 /// mod_neg_inv from the inverse of m modulo B
-proof fn lemma_neg_inv_def(k: int, inv0: int, inv: int, m0: int, mv: int)
+pub proof fn lemma_neg_inv_def(k: int, inv0: int, inv: int, m0: int, mv: int)
     requires 0 <= k < B(), 0 <= inv0 < B(), 0 <= m0 < B(),
         k == (if 0 - inv0 >= 0 { 0 - inv0 } else { 0 - inv0 + B() }),
         inv % B() == inv0, mv % B() == m0, (mv * inv) % B() == 1
